@@ -58,8 +58,8 @@ UNPROVED = ["ownership (a result's validity is its own) is a REQUIREMENT stated 
             "of the new mesh: valid_fresh) and compared with the code, but the oracle on the code alone checks them only "
             "structurally; irfftn is not exercised",
             "setter arguments outside the property's list: a dict over subregions is not modelled; a scalar FIELD is modelled at "
-            "mask level for Boolean fields only (setter_field_lookup, resample_is_field_setter) - a REAL-valued field keeps its "
-            "float dtype in the code (finding D111, generated only with VERIF_C08_FIELD_REAL=1)",
+            "mask level for Boolean fields only (setter_field_lookup, resample_is_field_setter) - a REAL-valued field used to keep "
+            "its float dtype (finding D111, fixed in /repo 4c0fafc6; the class is generated and checked by the oracle)",
             "object level: theorems speak about the validity array of each Field (and pairs (value, validity) for the mapping "
             "operations); that the Fld-level operations of C03/C05/C07 hand exactly these arrays to the constructor is checked "
             "by the correspondence runs of those properties and of this one, not by a Lean theorem linking the models",
@@ -563,6 +563,8 @@ class _Resample(Base):
         n2 = []
         for n, e in zip(t["n"], t["edges"]):
             cand = [m for m in range(1, 9) if tie_free(n, m) or (t["exact"] and dyadic_small(F(e) / m))]
+            if not cand:
+                return None
             n2.append(rng.choice(cand))
         if int(np.prod(n2)) > 300:
             return None
@@ -937,8 +939,8 @@ SETTER_SPECS = ["none", "true", "false", "int0", "int1", "int2", "neg1", "float0
                 "bad_shape", "bad_last", "bad_str", "bad_obj", "bad_rev", "bad_empty"]
 
 
-# `f.valid = <REAL-valued scalar field>` keeps the field's float dtype (finding D111): generated only when switched on
-FIELD_REAL_SPEC = bool(os.environ.get("VERIF_C08_FIELD_REAL"))
+# `f.valid = <REAL-valued scalar field>` kept the field's float dtype (finding D111, fixed in /repo 4c0fafc6): generated by default
+FIELD_REAL_SPEC = os.environ.get("VERIF_C08_FIELD_REAL", "1") != "0"
 
 
 def cases(rng, tier):
